@@ -10,11 +10,11 @@ def components():
     # Match: the model side is the XSD reference, so a disagreement is a violation of the property itself; it goes
     # through Match.witness() -> tag of a listed known finding (printed as KNOWN-FINDING) or VIOLATION. Match stands first so
     # that, when a change of the rewrite breaks both, the violation is reported with a failing (pattern, string) pair
-    return [R.Match(), R.Rewrite(), R.MatchList()]
+    return [R.Match(), R.Rewrite(), R.MatchList(), R.TypeSet()]
 
 
 def oracles_():
-    return [R.RewriteUB(), R.EntryPoints()]
+    return [R.RewriteUB(), R.EntryPoints(), R.YangreModes()]
 
 
 ASSUMPTIONS = [
@@ -50,17 +50,27 @@ MANIFEST = {
             "pattern without an escaped backslash whose block names are exact it IS the intended rewrite (C18_rewrite_eq_spec), and "
             "it is not on the witnesses of the three remaining rewrite defects (C18_block_prefix_refuted, C18_block_specials_refuted, "
             "C18_block_depth_refuted); (3) list evaluation with invert-match accepts iff every pattern's match XOR inverted holds "
-            "(C18_invert_match). Tie: the rewritten text is captured at pcre2_compile() and compared byte for byte with the model "
+            "(C18_invert_match), also when the patterns are spread over a typedef chain with invert-match at any level "
+            "(C18_invert_match_chain over the transcription of lys_compile_type_patterns(): inherited patterns first, each new "
+            "pattern with its own flag), and when levels of the chain restate length with or without patterns: the patterns "
+            "checked at the node are those of all levels and the length is the last one stated (C18_typeset_chain, "
+            "C18_typeset_validate over the transcription of the string case of lys_compile_type_()). Tie: the rewritten text is captured at pcre2_compile() and compared byte for byte with the model "
             "(Rewrite); the answers of ly_pattern_match/lyd_value_validate are compared with the XSD reference on patterns generated "
             "from the XSD grammar, exhaustively for small sizes over a small alphabet (Match); pattern lists with invert-match "
-            "(MatchList); the four entry points agree (EntryPoints oracle, incl. XPath re-match() and the yangre process).",
+            "(MatchList) and pattern sets over typedef chains of 1-4 levels (each level: nothing, patterns, a length statement, or both) as seen by the validator on a leaf, leaf-list, union "
+            "member, list key, typedef and typedef of typedef, together with the conjunction of the single-pattern answers of "
+            "ly_pattern_match() (TypeSet); the four entry points agree (EntryPoints oracle, incl. XPath re-match() and the yangre process).",
     "note": "Proved: the reference semantics and the rewrite. NOT proved, only tied by running both: that PCRE2 gives the rewritten "
             "text the XSD meaning (PCRE2 is external). So 'libyang accepts s for p iff s is in the XSD language of p' holds as far "
             "as the Match comparison explored it, minus the listed known findings (known_findings.d/regex.json: \\w, \\i \\c \\I \\C, "
             "class subtraction, POSIX-like brackets, \\P{IsX}, six shadowed block names, Specials, the bracket counter after an "
             "escaped backslash, '.' and CR, \\s under UCP) - these are genuine deviations of libyang from XSD, each replayed from its "
             "witness on every run. yangre is run for a quarter of the EntryPoints cases (one process per pair); ASan/UBSan runs "
-            "the former out-of-bounds inputs of the block rewrite (RewriteUB).",
+            "the former out-of-bounds inputs of the block rewrite (RewriteUB). The YangreModes oracle runs the yangre binary of the "
+            "same build (vlib builds the library with ENABLE_TOOLS=ON; impl/t_regex.c finds it as ../yangre) in command-line mode "
+            "and in file mode (LF, CRLF, no final line end) on pattern sets with invert-match and strings with blanks, tabs, CR, "
+            "non-ASCII and the empty string; the two defects of the file parser found this way are fixed (5322449) and stay as regression cases. The "
+            "compile step from a pattern expression to a PCRE2 code is abstract in the pattern-set theorem (oracle-level tie).",
     "technique": "Coq proof (reference matcher vs denotational semantics; rewrite model theorems) + differential correspondence "
                  "(extracted OCaml vs C, rewritten text and match answers) + entry-point agreement and sanitizer oracles",
 }
